@@ -9,10 +9,13 @@ Executable model of nitrogql's operation type printer
   opDecls   = the `type … = …;` statements of the operation declaration file that carry Result / fragment types
 
 The model follows the code, including its panics (`Panic`) and its defects:
-  * sub-tree branches are matched BY TYPE NAME ONLY when two same-key object fields are merged
-    (`mergeTrees`; the variable assignment of the branch is ignored — DESIGN §9-a);
-  * `__typename` is recognised by FIELD NAME when the tree is built but by RESPONSE KEY when it is printed
-    (`fieldToTs`; §9-b, §9-c);
+  * (§9-a — REPAIRED in /repo 0bbdfa6: when two same-key object fields are merged, sub-tree branches were matched BY
+    TYPE NAME ONLY, ignoring the branch's variable assignment; a branch now carries its assignment and branches are
+    paired when the assignments agree on shared variables — `mergeBranchesWith`.  The pre-repair pairing is kept as
+    `mergeBranchesByNameOnly` / `mergeTreesOld` so that the kernel-checked counterexample of Props/C01.lean keeps
+    saying what was wrong);
+  * (§9-b, §9-c — REPAIRED in /repo 72cec20: `__typename` was recognised by field name when the tree is built but
+    by response key when it is printed; the leaf now carries `is_typename`, and so does the model);
   * a leaf merged with an object under one response key panics (`mergeFields`; §9-h).
 Every function is structurally recursive (explicit fuel where the code recurses through fragments / merged trees),
 so concrete witnesses evaluate in the kernel.  Core Lean only.
@@ -40,31 +43,33 @@ inductive SelTree where
   | nonNull (t : SelTree)
   | list (t : SelTree)
   | object (bs : List Branch)
-/-- `SelectionTreeBranch { type_name, unaliased_fields, aliased_fields }` -/
+/-- `SelectionTreeBranch { type_name, boolean_variables, unaliased_fields, aliased_fields }` -/
 inductive Branch where
-  | mk (typeName : Name) (unaliased aliased : List SField)
+  | mk (typeName : Name) (vars : List (Name × Bool)) (unaliased aliased : List SField)
 /-- `SelectionTreeField` -/
 inductive SField where
   | empty (name : Name)
-  | leaf (name : Name) (ty : GType)
+  | leaf (name : Name) (ty : GType) (isTypename : Bool)
   | object (name : Name) (sel : SelTree)
 end
 
 instance : Inhabited SelTree := ⟨.object []⟩
 instance : Inhabited SField := ⟨.empty ""⟩
-instance : Inhabited Branch := ⟨.mk "" [] []⟩
+instance : Inhabited Branch := ⟨.mk "" [] [] []⟩
 
 def SField.name : SField → Name
   | .empty n => n
-  | .leaf n _ => n
+  | .leaf n _ _ => n
   | .object n _ => n
 
 def Branch.typeName : Branch → Name
-  | .mk n _ _ => n
+  | .mk n _ _ _ => n
+def Branch.vars : Branch → List (Name × Bool)
+  | .mk _ v _ _ => v
 def Branch.unaliased : Branch → List SField
-  | .mk _ u _ => u
+  | .mk _ _ u _ => u
 def Branch.aliased : Branch → List SField
-  | .mk _ _ a => a
+  | .mk _ _ _ a => a
 
 abbrev Frags := Name → Option FragmentDef
 
@@ -197,9 +202,9 @@ def fragmentApplies (S : Schema) (obj : TypeDef) (cond : Name) : Except Panic Bo
 /-- `merge_fields`, given the function that merges two selection trees -/
 def mergeFieldsWith (mt : SelTree → SelTree → Except Panic SelTree) : SField → SField → Except Panic SField
   | .empty n, .empty _ => .ok (.empty n)
-  | .leaf n t, .leaf _ _ => .ok (.leaf n t)
-  | .leaf n t, .empty _ => .ok (.leaf n t)
-  | .empty _, .leaf n t => .ok (.leaf n t)
+  | .leaf n t b, .leaf _ _ _ => .ok (.leaf n t b)
+  | .leaf n t b, .empty _ => .ok (.leaf n t b)
+  | .empty _, .leaf n t b => .ok (.leaf n t b)
   | .object n l, .object _ r => do .ok (.object n (← mt l r))
   | .empty _, .object n r => .ok (.object n r)
   | .object n l, .empty _ => .ok (.object n l)
@@ -223,17 +228,29 @@ def deepMergeGo (mt : SelTree → SelTree → Except Panic SelTree) : List SFiel
 def deepMergeWith (mt : SelTree → SelTree → Except Panic SelTree) (fs : List SField) : Except Panic (List SField) :=
   deepMergeGo mt fs []
 
-/-- the `Object, Object` arm of `merge_selection_trees`: every left branch is merged with the FIRST right branch of
-    the same type name (if any); right branches whose type name did not occur are appended -/
+/-- `merge_boolean_variables`: the left assignment followed by the right one's new variables; `none` if they
+    disagree on a shared variable -/
+def unifyVars (l r : List (Name × Bool)) : Option (List (Name × Bool)) :=
+  if r.any (fun x => match l.find? (·.1 == x.1) with
+      | some (_, b) => b != x.2
+      | none => false) then none
+  else some (l ++ r.filter fun x => !l.any (·.1 == x.1))
+
+/-- the `Object, Object` arm of `merge_selection_trees` (after 0bbdfa6): every left branch is merged with every right
+    branch of the same type name whose assignment agrees with its own on the shared variables; a left branch whose
+    type does not occur on the right is kept; right branches whose type does not occur on the left are appended -/
 def mergeBranchesWith (mt : SelTree → SelTree → Except Panic SelTree) (left right : List Branch) :
     Except Panic (List Branch) := do
   let merged ← left.mapM fun lb =>
-    match right.find? (·.typeName == lb.typeName) with
-    | some rb => do
-      .ok (Branch.mk lb.typeName (← deepMergeWith mt (lb.unaliased ++ rb.unaliased))
-        (← deepMergeWith mt (lb.aliased ++ rb.aliased)))
-    | none => .ok lb
-  .ok (right.foldl (fun acc rb => if acc.any (·.typeName == rb.typeName) then acc else acc ++ [rb]) merged)
+    let same := right.filter (·.typeName == lb.typeName)
+    if same.isEmpty then (.ok [lb] : Except Panic (List Branch))
+    else same.filterMapM fun rb =>
+      match unifyVars lb.vars rb.vars with
+      | none => (.ok none : Except Panic (Option Branch))
+      | some vars => do
+        .ok (some (Branch.mk lb.typeName vars (← deepMergeWith mt (lb.unaliased ++ rb.unaliased))
+          (← deepMergeWith mt (lb.aliased ++ rb.aliased))))
+  .ok (merged.flatten ++ right.filter fun rb => !left.any (·.typeName == rb.typeName))
 
 /-- `merge_selection_trees`; the fuel bounds the nesting depth of the trees -/
 def mergeTrees : Nat → SelTree → SelTree → Except Panic SelTree
@@ -241,6 +258,26 @@ def mergeTrees : Nat → SelTree → SelTree → Except Panic SelTree
   | fuel + 1, .nonNull l, .nonNull r => do .ok (.nonNull (← mergeTrees fuel l r))
   | fuel + 1, .list l, .list r => do .ok (.list (← mergeTrees fuel l r))
   | fuel + 1, .object l, .object r => do .ok (.object (← mergeBranchesWith (mergeTrees fuel) l r))
+  | _ + 1, _, _ => .error .mergeTreesDifferentTypes
+
+/-- PRE-REPAIR pairing (before 0bbdfa6), kept for `merge_by_typename_counterexample`: every left branch is merged
+    with the FIRST right branch of the same type name, whatever its assignment -/
+def mergeBranchesByNameOnly (mt : SelTree → SelTree → Except Panic SelTree) (left right : List Branch) :
+    Except Panic (List Branch) := do
+  let merged ← left.mapM fun lb =>
+    match right.find? (·.typeName == lb.typeName) with
+    | some rb => do
+      .ok (Branch.mk lb.typeName lb.vars (← deepMergeWith mt (lb.unaliased ++ rb.unaliased))
+        (← deepMergeWith mt (lb.aliased ++ rb.aliased)))
+    | none => .ok lb
+  .ok (right.foldl (fun acc rb => if acc.any (·.typeName == rb.typeName) then acc else acc ++ [rb]) merged)
+
+/-- PRE-REPAIR `merge_selection_trees` -/
+def mergeTreesOld : Nat → SelTree → SelTree → Except Panic SelTree
+  | 0, _, _ => .error .outOfFuel
+  | fuel + 1, .nonNull l, .nonNull r => do .ok (.nonNull (← mergeTreesOld fuel l r))
+  | fuel + 1, .list l, .list r => do .ok (.list (← mergeTreesOld fuel l r))
+  | fuel + 1, .object l, .object r => do .ok (.object (← mergeBranchesByNameOnly (mergeTreesOld fuel) l r))
   | _ + 1, _, _ => .error .mergeTreesDifferentTypes
 
 /-- `deep_merge_selection_tree` as called from `get_object_type_for_selection_set` -/
@@ -266,6 +303,18 @@ def directField? (obj : TypeDef) (fname : Name) : Option GType :=
   | some f => some f.ty
   | none => if fname == "__typename" then some (.nonNull (.named "String" { builtin := true })) else none
 
+/-- the tree field of one `Selection::Field` (the body of the `filter_map` closure of `get_fields_for_selection_set`),
+    given whether `check_skip_directive` said "skipped" and the function that types a sub-selection -/
+def fieldTree (obj : TypeDef) (key name : Name) (skipped : Bool) (sub : Option (List Selection))
+    (rec : GType → List Selection → Except Panic SelTree) : Except Panic SField :=
+  if skipped then .ok (.empty key)
+  else if name == "__typename" then .ok (.leaf key (.named "String" { builtin := true }) true)
+  else match directField? obj name with
+    | none => .error .typeSystemError
+    | some ty => match sub with
+      | none => .ok (.leaf key ty false)
+      | some sub => do .ok (.object key (← rec ty sub))
+
 mutual
 /-- `get_type_for_selection_set` -/
 def implTree (S : Schema) (F : Frags) (mfuel : Nat) : Nat → GType → List Selection → Except Panic SelTree
@@ -278,7 +327,7 @@ def implTree (S : Schema) (F : Frags) (mfuel : Nat) : Nat → GType → List Sel
         let fs ← fieldsFor S F mfuel fuel c ss
         let un ← deepMerge mfuel ((fs.filter (!·.1)).map (·.2))
         let al ← deepMerge mfuel ((fs.filter (·.1)).map (·.2))
-        .ok (Branch.mk c.obj.name un al)) parent
+        .ok (Branch.mk c.obj.name c.vars un al)) parent
 /-- `get_fields_for_selection_set`: the direct fields first, then the contents of the fragments -/
 def fieldsFor (S : Schema) (F : Frags) (mfuel : Nat) : Nat → Cond → List Selection → Except Panic (List Tagged)
   | 0, _, _ => .error .outOfFuel
@@ -290,14 +339,8 @@ def fieldsFor (S : Schema) (F : Frags) (mfuel : Nat) : Nat → Cond → List Sel
     let simple ← ss.filterMapM fun s => match s with
       | .field alias name _ _ dirs sub => do
         let key := match alias with | some (a, _) => a | none => name
-        let f ← (do
-          if ← checkSkip c.vars dirs then .ok (SField.empty key)
-          else if name == "__typename" then .ok (SField.leaf key (.named "String" { builtin := true }))
-          else match directField? obj name with
-            | none => .error .typeSystemError
-            | some ty => match sub with
-              | none => .ok (SField.leaf key ty)
-              | some sub => do .ok (SField.object key (← implTree S F mfuel fuel ty sub)) : Except Panic SField)
+        let skipped ← checkSkip c.vars dirs
+        let f ← fieldTree obj key name skipped sub (fun ty sub => implTree S F mfuel fuel ty sub)
         .ok (some (alias.isSome, f))
       | _ => .ok none
     let frags ← ss.mapM fun s => match s with
@@ -360,7 +403,7 @@ def branchesTs (ns : String) : List Branch → List Ty
   | [] => []
   | b :: bs => branchTs ns b :: branchesTs ns bs
 def branchTs (ns : String) : Branch → Ty
-  | .mk tn un al =>
+  | .mk tn _ un al =>
     .app (.qref [ns, "__SelectionSet"])
       [.qref [ns, "__OperationOutput", tn], .obj (fieldsTs ns tn un), .obj (fieldsTs ns tn al)]
 def fieldsTs (ns : String) (parent : Name) : List SField → List Ts.Field
@@ -369,7 +412,7 @@ def fieldsTs (ns : String) (parent : Name) : List SField → List Ts.Field
 /-- `field_to_type`: (key, readonly, optional, type) -/
 def fieldTs (ns : String) (parent : Name) : SField → Ts.Field
   | .empty n => (n, false, true, .prim "never")
-  | .leaf n ty => (n, false, false, if n == "__typename" then .strLit parent else leafTs ns ty)
+  | .leaf n ty isTn => (n, false, false, if isTn then .strLit parent else leafTs ns ty)
   | .object n sel => (n, false, false, treeTs ns sel false)
 end
 
